@@ -63,8 +63,8 @@ ENV_NOTE = (BOOK_NOTE + " Env/MarketEnv/Market are modelled over the book model;
 
 LEVEL.update({
     "C08": dict(engine="book", design_ref="DESIGN.md 6/C08",
-                technique="Lean 4 theorems (step = replay of a permutation of the queue at start+i; per-asset plain-book replay via the projection law; whole simulation histories project to plain book histories and to the reference engine; the book invariant holds in every reachable environment state) + exact schedule prediction and real plain-book shadow replay, incl. over-full batches and long runs",
-                text="step_is_replay, step_is_plain_book_replay, step_processes_queue_once (List.Perm), batch_times, step_post for all environments, batches and generator states; for whole histories env_history_is_market_history / env_history_is_book_history (after any sequence of environment operations each asset's book is a stand-alone book run on its share of the plain operations), simulation_asset_is_reference_engine (it is the reference engine's state) and env_books_invariant (every book of every reachable environment state satisfies the book invariant). Per run: long runs (hundreds of steps, more than 1024 instructions) judged by shadow replay and one-shuffle-per-step; over-full batches; zero-volume instructions; the Lean generator model predicts the real schedule exactly; real stand-alone OrderBooks replay the batch in that order at those times and must equal the environment's books; clock/counter audits.",
+                technique="Lean 4 theorems (step = replay of a permutation of the queue at start+i; per-asset plain-book replay via the projection law; whole simulation histories project to plain book histories and to the reference engine; the book invariant holds in every reachable environment state) + exact schedule prediction and real plain-book shadow replay, incl. long runs",
+                text="step_is_replay, step_is_plain_book_replay, step_processes_queue_once (List.Perm), batch_times, step_post for all environments, batches and generator states; for whole histories env_history_is_market_history / env_history_is_book_history (after any sequence of environment operations each asset's book is a stand-alone book run on its share of the plain operations), simulation_asset_is_reference_engine (it is the reference engine's state) and env_books_invariant (every book of every reachable environment state satisfies the book invariant). Per run: long runs (hundreds of steps, more than 1024 instructions) judged by shadow replay and one-shuffle-per-step; the Lean generator model predicts the real schedule exactly; real stand-alone OrderBooks replay the batch in that order at those times and must equal the environment's books; clock/counter audits.",
                 note=ENV_NOTE),
     "C10": dict(engine="book", design_ref="DESIGN.md 6/C10",
                 technique="Lean 4 theorems (frame lemmas for submissions, cache invariant) + before/after observation audit on the real environments",
